@@ -180,5 +180,11 @@ theorem rounded_sim3_core (eps γq γs γt : ℝ) (h0 : 0 ≤ eps) (h1 : eps ≤
       _ ≤ _ := by nlinarith
   · intro a
     exact le_trans (ht a) (by linarith)
+
+/-- the stored scale stays positive whenever its relative error is below 1 -/
+theorem rounded_scale_pos (γs s σ : ℝ) (hγ : γs < 1) (hs : |s - Real.exp σ| ≤ γs * Real.exp σ) : 0 < s := by
+  have he := Real.exp_pos σ
+  rw [abs_le] at hs
+  nlinarith
 end
 end PP
